@@ -61,6 +61,9 @@ def cases(tier, seed):
                             if tier == "quick" and (d_in + n_out + n_eq + n + b + ki) % 2:
                                 continue
                             out.append(dict(type="obs", n=n, b=b, d_in=d_in, flat=flat, n_out=n_out, n_eq=n_eq, key=key))
+                            if ki == 0 and n_eq == 0 and not flat and (n + b) % 2 == 0:
+                                # documented option: keep the tables on a given device (here the only CPU device)
+                                out.append(dict(type="obs", n=n, b=b, d_in=d_in, flat=flat, n_out=n_out, n_eq=n_eq, key=key, sharding=True))
                 for layout in ("range", "table1d", "table2d", "both1d", "both2d", "mixed"):
                     for method in ("uniform", "grid"):
                         out.append(dict(type="param", n=n, b=b, layout=layout, method=method, key=key))
@@ -113,7 +116,10 @@ def run_case(case):
     nontriv = [str({k: v for k, v in case.items() if k != "key"})] if n >= 2 else []
     if t == "obs":
         pin, val, eq = table(n, case["d_in"], case["n_out"], case["n_eq"], case["flat"])
-        g0 = jinns.data.DataGeneratorObservations(key, b, pin, val, eq)
+        if case.get("sharding"):
+            g0 = jinns.data.DataGeneratorObservations(key, b, pin, val, eq, sharding_device=jax.sharding.SingleDeviceSharding(jax.devices()[0]))
+        else:
+            g0 = jinns.data.DataGeneratorObservations(key, b, pin, val, eq)
         site = "DataGeneratorObservations"
 
         def step(state, op, hist):
